@@ -41,8 +41,8 @@ class Case:
     decoded by ``Prop.impl``/``Prop.oracle`` on the real-code side."""
 
     def __init__(self, req, stream='main', nontrivial=True, key=None, note=None):
-        self.req = req
         self.line = dumps(req)
+        self.req = loads(self.line)     # normalised: exactly what a replay will see
         self.stream = stream
         self.nontrivial = nontrivial
         self.key = key if key is not None else self.line
